@@ -421,6 +421,7 @@ def build_core(repo, external=(), canary=None, with_witness=True, boost=False):
     b.add(read("spec/core_laws.rs"))
     b.add(read("spec/core_named.rs"))
     b.add(read("spec/eval_spec.rs"))
+    b.add(read("spec/eval_closed.rs"))
 
     ss = Woven(db_rs, "fn", "signed_shift", log)
     strip_clippy(ss)
